@@ -15,8 +15,8 @@ use std::net::{SocketAddr, TcpListener};
 use std::sync::Arc;
 use std::time::{Duration, Instant};
 
-const TIMEOUT_MS: u64 = 300;
-const SLACK_MS: u64 = 600;
+const TIMEOUT_MS: u64 = 500;
+const SLACK_MS: u64 = 300;
 
 /// Upstream script: `r` refuse; otherwise segments `d<hex>` sent in order, `p<ms>` pauses, ending `e` (close)
 /// or `s` (stay silent with the connection open until the proxy gives up).
@@ -212,6 +212,14 @@ pub fn gen(out: &mut Out, thorough: bool, seed: u64) {
             let cut = rng.range(0, bytes.len() as u64 - 1) as usize;
             add(&mut cases, &req, vec![format!("d{}", hex(&bytes[..cut])), "s".into()], "-");
         }
+    }
+    // silence, then part of a response late (but inside the budget), then silence again: the answer is still due
+    // at the deadline, not one full timeout after the last byte
+    for framing in 0..2u8 {
+        let bytes = resp_bytes(&mut rng, 200, framing, b"0123456789abcdef");
+        let cut = bytes.len() - 5;
+        add(&mut cases, &client_reqs[0], vec!["p400".into(), format!("d{}", hex(&bytes[..cut])), "s".into()], "-");
+        add(&mut cases, &client_reqs[1], vec!["p200".into(), format!("d{}", hex(&bytes[..10])), "p200".into(), format!("d{}", hex(&bytes[10..cut])), "s".into()], "-");
     }
     // garbage, header-malformed, refused, accept-then-silence, accept-then-close, trickle
     for g in [&b"garbage\r\n\r\n"[..], b"HTTP/1.1 abc OK\r\n\r\n", b"HTTP/1.1 200 OK\r\nNoColon\r\n\r\n", b"HTTP/1.1 999 X\r\n\r\n", b"\xff\xfe\r\n", b"HTTP/1.1 200 OK\r\nContent-Length: zz\r\n\r\n", b"HTTP/1.1 200 OK\r\nTransfer-Encoding: chunked\r\n\r\nzz\r\n"] {
